@@ -33,24 +33,6 @@ theorem disjunctionOfAnonymousStructsToExplicit_total (S : Schemas) :
   intro cur s _ _
   exact visitSchemaSt_noPanic _ s (fun _ => rfl) (fun _ _ _ => rfl)
 
-/-! ### DisjunctionWithNullToOptional: `NonNullTypes()[0]` -/
-
-theorem disjunctionWithNullToOptional_total (S : Schemas) (h : NoNullOnlyUnion S = true) :
-    isPanic (DisjunctionWithNullToOptional.run S) = false := by
-  apply runDisjPass_noPanic _ notNullOnlyNode S h
-  intro cur s _ _ bs i m hp
-  simp only [DisjunctionWithNullToOptional.hook]
-  by_cases hc : (bs.length != 2 || !hasNullType bs) = true
-  · simp [hc]
-  · simp only [hc]
-    cases hn : nonNullTypes bs with
-    | cons t ts => rfl
-    | nil =>
-      exfalso
-      simp only [notNullOnlyNode, hn] at hp
-      simp at hc
-      simp [hc.1, hc.2] at hp
-
 /-! ### resolution inside the current schema: enough fuel, no cycle ⇒ no overflow -/
 
 theorem objectsSize_ge_length : ∀ os : Objects, os.length ≤ objectsSize os
@@ -119,6 +101,34 @@ end
 theorem allSchemas_true : ∀ S : Schemas, allSchemas (fun _ => true) S = true
   | [] => rfl
   | s :: ss => by simp [allSchemas, allTy_true, allSchemas_true ss]
+
+/-! ### DisjunctionWithNullToOptional: unconditional since fix 30da046 (`null | null` is returned
+    unchanged); before it `NonNullTypes()[0]` panicked -/
+
+theorem disjunctionWithNullToOptionalPreFix_total (S : Schemas) (h : NoNullOnlyUnion S = true) :
+    isPanic (DisjunctionWithNullToOptional.runPreFix S) = false := by
+  apply runDisjPass_noPanic _ notNullOnlyNode S h
+  intro cur s _ _ bs i m hp
+  simp only [DisjunctionWithNullToOptional.hookPreFix]
+  by_cases hc : (bs.length != 2 || !hasNullType bs) = true
+  · simp [hc]
+  · simp only [hc]
+    cases hn : nonNullTypes bs with
+    | cons t ts => rfl
+    | nil =>
+      exfalso
+      simp only [notNullOnlyNode, hn] at hp
+      simp at hc
+      simp [hc.1, hc.2] at hp
+
+theorem disjunctionWithNullToOptional_total (S : Schemas) :
+    isPanic (DisjunctionWithNullToOptional.run S) = false := by
+  apply runDisjPass_noPanic _ (fun _ => true) S (allSchemas_true S)
+  intro cur s _ _ bs i m _
+  simp only [DisjunctionWithNullToOptional.hook]
+  split
+  · rfl
+  · split <;> rfl
 
 /-! ### FlattenDisjunctions, UndiscriminatedDisjunctionToAny, DisjunctionToType:
     the only partial operation is the recursion of `Schema.Resolve` -/
@@ -246,24 +256,40 @@ theorem disjunctionToType_total (S : Schemas) (h : LocalAliasAcyclic S = true) :
   exact visitSchemaSt_noPanic _ s (fun n => dvStTy_noPanic _ _ hh _ n he)
     (fun ko hko n => dvStTy_noPanic _ _ hh _ n (ho ko hko))
 
-/-! ### PrefixEnumValues / SanitizeEnumMemberNames: `member.Type.Scalar`, `member.Value.(string)`,
-    `member.Name[0]` -/
+/-! ### PrefixEnumValues / SanitizeEnumMemberNames: `member.Type.Scalar` (since fix aceba4d the only
+    partial operation left; `member.Value.(string)` and `member.Name[0]` are kept in the `…PreFix`
+    member functions, total under `memberOkPreFix`) -/
 
-def memberOk (v : EnumVal) : Bool := memberScalar v && memberTyped v && memberNamed v
+/-- what the naming passes needed of a member before fix aceba4d -/
+def memberOkPreFix (v : EnumVal) : Bool := memberScalar v && memberTyped v && memberNamed v
+
+/-- since fix aceba4d only the member's scalar type is dereferenced (`member.Type.Scalar`): part of `wfIR` -/
+def memberOk (v : EnumVal) : Bool := memberScalar v
 
 def enumMembersOkNode : Ty → Bool
   | .enum vs _ => vs.all memberOk
   | _ => true
 
-/-- all three enum conditions at every node -/
+/-- every enum member has a scalar type, at every node (a conjunct of `wfIR`) -/
 def EnumMembersOk (S : Schemas) : Bool := allSchemas enumMembersOkNode S
 
 theorem prefix_memberName_noPanic (v : EnumVal) (h : memberOk v = true) :
     isPanic (PrefixEnumValues.memberName v) = false := by
-  simp only [memberOk, Bool.and_eq_true, memberScalar, memberTyped, memberNamed] at h
+  simp only [memberOk, memberScalar] at h
+  have h1' : v.kind.startsWith "?" = false := by simpa using h
+  simp only [PrefixEnumValues.memberName, h1', Bool.false_eq_true, if_false]
+  split
+  · rfl
+  · split
+    · rfl
+    · split <;> rfl
+
+theorem prefix_memberNamePreFix_noPanic (v : EnumVal) (h : memberOkPreFix v = true) :
+    isPanic (PrefixEnumValues.memberNamePreFix v) = false := by
+  simp only [memberOkPreFix, Bool.and_eq_true, memberScalar, memberTyped, memberNamed] at h
   obtain ⟨⟨h1, h2⟩, h3⟩ := h
   have h1' : v.kind.startsWith "?" = false := by simpa using h1
-  simp only [PrefixEnumValues.memberName, h1', Bool.false_eq_true, if_false]
+  simp only [PrefixEnumValues.memberNamePreFix, h1', Bool.false_eq_true, if_false]
   by_cases hk : (v.kind == "string") = true
   · simp only [hk, if_true] at h2 ⊢
     cases hv : v.value with
@@ -354,7 +380,14 @@ theorem head0_ucc_negative (s : String) : ∃ c, head0 (ucc ("negative" ++ s)) =
 
 theorem sanitizeMember_noPanic (v : EnumVal) (h : memberOk v = true) :
     isPanic (SanitizeEnumMemberNames.sanitizeMember v) = false := by
-  simp only [memberOk, Bool.and_eq_true, memberScalar, memberTyped, memberNamed] at h
+  simp only [memberOk, memberScalar] at h
+  have h1' : v.kind.startsWith "?" = false := by simpa using h
+  simp only [SanitizeEnumMemberNames.sanitizeMember, h1', Bool.false_eq_true, if_false]
+  rfl
+
+theorem sanitizeMemberPreFix_noPanic (v : EnumVal) (h : memberOkPreFix v = true) :
+    isPanic (SanitizeEnumMemberNames.sanitizeMemberPreFix v) = false := by
+  simp only [memberOkPreFix, Bool.and_eq_true, memberScalar, memberTyped, memberNamed] at h
   obtain ⟨⟨h1, h2⟩, h3⟩ := h
   have h1' : v.kind.startsWith "?" = false := by simpa using h1
   -- the name is not empty
@@ -365,7 +398,7 @@ theorem sanitizeMember_noPanic (v : EnumVal) (h : memberOk v = true) :
       by_cases he : v.name = ""
       · simp [he, head0] at hh
       · simpa using he
-  simp only [SanitizeEnumMemberNames.sanitizeMember, h1', Bool.false_eq_true, if_false, hne, Bool.and_false]
+  simp only [SanitizeEnumMemberNames.sanitizeMemberPreFix, h1', Bool.false_eq_true, if_false, hne, Bool.and_false]
   cases hh : head0 v.name with
   | none => simp [hh] at h3
   | some c0 =>
@@ -747,10 +780,10 @@ theorem find_mem {α : Type} (p : α → Bool) : ∀ (l : List α) (a : α), l.f
       simp only [hp'] at h
       exact List.mem_cons_of_mem _ (find_mem p xs a h)
 
-theorem infer_build_noPanic (cur : Schemas) (s : Schema) (hs : s ∈ cur)
+theorem infer_buildPreFix_noPanic (cur : Schemas) (s : Schema) (hs : s ∈ cur)
     (hac : Schema.aliasAcyclicB s = true) (disc : String) :
     ∀ (bs : List Ty) (acc : List (String × String)), hasOnlyRefs bs = true → bs.all (inferBranchOk s) = true →
-      isPanic (DisjunctionInferMapping.build s (Schemas.fuel cur) disc bs acc) = false
+      isPanic (DisjunctionInferMapping.buildPreFix s (Schemas.fuel cur) disc bs acc) = false
   | [], _, _, _ => rfl
   | b :: bs, acc, hrefs, hall => by
     simp only [hasOnlyRefs, Bool.and_eq_true] at hrefs
@@ -759,7 +792,7 @@ theorem infer_build_noPanic (cur : Schemas) (s : Schema) (hs : s ∈ cur)
     | ref p tname m =>
       have hb := hall.1
       simp only [inferBranchOk, ← schemaResolve_stable cur s hs hac] at hb
-      simp only [DisjunctionInferMapping.build]
+      simp only [DisjunctionInferMapping.buildPreFix]
       rw [schemaResolve_eq]
       cases hr : (schemaSys s).resolve (Schemas.fuel cur) (.ref p tname m) with
       | exhausted => simp [hr] at hb
@@ -783,7 +816,7 @@ theorem infer_build_noPanic (cur : Schemas) (s : Schema) (hs : s ∈ cur)
               · simp [hn]
               · simp only [hn, Bool.false_eq_true, if_false]
                 cases v with
-                | str sv => exact infer_build_noPanic cur s hs hac disc bs _ hrefs.2 hall.2
+                | str sv => exact infer_buildPreFix_noPanic cur s hs hac disc bs _ hrefs.2 hall.2
                 | nil => simp [Val.isNil] at hn
                 | bool _ => simp [Val.isNil, isStrVal] at hfc
                 | int _ _ => simp [Val.isNil, isStrVal] at hfc
@@ -796,7 +829,7 @@ theorem infer_build_noPanic (cur : Schemas) (s : Schema) (hs : s ∈ cur)
               simp only [fieldConstOk, hft] at hfc
               simp only []
               cases v with
-              | str sv => exact infer_build_noPanic cur s hs hac disc bs _ hrefs.2 hall.2
+              | str sv => exact infer_buildPreFix_noPanic cur s hs hac disc bs _ hrefs.2 hall.2
               | nil => simp [isStrVal] at hfc
               | bool _ => simp [isStrVal] at hfc
               | int _ _ => simp [isStrVal] at hfc
@@ -809,14 +842,16 @@ theorem infer_build_noPanic (cur : Schemas) (s : Schema) (hs : s ∈ cur)
         | _ => simp at hb
     | _ => simp [Ty.isRef] at hrefs
 
-theorem disjunctionInferMapping_total (pick : List String → String) (S : Schemas)
+/-- before fixes 375123d / 146d1ec the pass needed `InferMappingSafe` (non-empty unions whose branches resolve
+    to structs with string constants) on top of alias acyclicity -/
+theorem disjunctionInferMappingPreFix_total (S : Schemas)
     (hac : LocalAliasAcyclic S = true) (hsafe : InferMappingSafe S = true) :
-    isPanic (DisjunctionInferMapping.runWith pick S) = false := by
+    isPanic (DisjunctionInferMapping.runPreFix S) = false := by
   apply runDisjPass_noPanicS _ inferNodeOk S hsafe
   intro cur s hs hc bs info m hp
   have hacs := localAcyclic_mem hac hs
   have hres := schemaResolve_noPanic cur s hc hacs
-  simp only [DisjunctionInferMapping.hookWith]
+  simp only [DisjunctionInferMapping.hookWithPreFix]
   by_cases h1 : hasOnlyRefs bs = true
   · simp only [h1, Bool.not_true, Bool.false_eq_true, if_false]
     by_cases h2 : (info.discriminator != "" && !info.mapping.isEmpty) = true
@@ -827,9 +862,96 @@ theorem disjunctionInferMapping_total (pick : List String → String) (S : Schem
         exact hp
       simp only [Bool.and_eq_true] at hp'
       -- the discriminator
-      have hq : isPanic (DisjunctionInferMapping.qualifying s (Schemas.fuel cur) bs) = false := by
+      have hq : isPanic (DisjunctionInferMapping.qualifyingPreFix s (Schemas.fuel cur) bs) = false := by
         cases bs with
         | nil => simp at hp'
+        | cons b0 rest =>
+          simp only [DisjunctionInferMapping.qualifyingPreFix]
+          have := infer_collect_noPanic s (Schemas.fuel cur) hres (b0 :: rest) []
+          cases hcq : DisjunctionInferMapping.collect s (Schemas.fuel cur) (b0 :: rest) [] with
+          | panic _ => rw [hcq] at this; cases this
+          | err _ => rfl
+          | ok _ => rfl
+      have hb := fun disc => infer_buildPreFix_noPanic cur s hc hacs disc bs [] h1 hp'.2
+      by_cases hd : (info.discriminator == "") = true
+      · simp only [hd, if_true]
+        cases hqq : DisjunctionInferMapping.qualifyingPreFix s (Schemas.fuel cur) bs with
+        | panic _ => rw [hqq] at hq; cases hq
+        | err _ => rfl
+        | ok q =>
+          simp only []
+          split
+          · rfl
+          · split
+            · rfl
+            · have := hb (DisjunctionInferMapping.smallest q)
+              cases hbb : DisjunctionInferMapping.buildPreFix s (Schemas.fuel cur) (DisjunctionInferMapping.smallest q) bs [] with
+              | panic _ => rw [hbb] at this; cases this
+              | err _ => rfl
+              | ok r => cases r <;> rfl
+      · simp only [hd, Bool.false_eq_true, if_false]
+        have := hb info.discriminator
+        split
+        · rfl
+        · split <;> simp_all
+  · have h1' : hasOnlyRefs bs = false := by simpa using h1
+    simp [h1']
+
+theorem infer_build_noPanic (s : Schema) (fuel : Nat)
+    (hres : ∀ t, isPanic (Cog.Passes.Schema.resolve s fuel t) = false) (disc : String) :
+    ∀ (bs : List Ty) (acc : List (String × String)), hasOnlyRefs bs = true →
+      isPanic (DisjunctionInferMapping.build s fuel disc bs acc) = false
+  | [], _, _ => rfl
+  | b :: bs, acc, hrefs => by
+    simp only [hasOnlyRefs, Bool.and_eq_true] at hrefs
+    cases b with
+    | ref p tname m =>
+      simp only [DisjunctionInferMapping.build]
+      have := hres (.ref p tname m)
+      cases hr : Cog.Passes.Schema.resolve s fuel (.ref p tname m) with
+      | panic _ => rw [hr] at this; cases this
+      | err _ => rfl
+      | ok o =>
+        cases o with
+        | none => rfl
+        | some t =>
+          cases t with
+          | struct fs g gi sm =>
+            simp only []
+            cases hf : fs.find? (fun f => f.name == disc) with
+            | none => rfl
+            | some f =>
+              simp only []
+              cases hft : f.ty with
+              | scalar k v cs fm =>
+                simp only []
+                split
+                · rfl
+                · cases v <;> first | rfl | exact infer_build_noPanic s fuel hres disc bs _ hrefs.2
+              | cref cp cn v cm =>
+                simp only []
+                cases v <;> first | rfl | exact infer_build_noPanic s fuel hres disc bs _ hrefs.2
+              | _ => rfl
+          | _ => rfl
+    | _ => simp [Ty.isRef] at hrefs
+
+/-- since fixes 375123d / 146d1ec the only partial operation left is the recursion of `Schema.Resolve` -/
+theorem disjunctionInferMapping_total (pick : List String → String) (S : Schemas)
+    (hac : LocalAliasAcyclic S = true) :
+    isPanic (DisjunctionInferMapping.runWith pick S) = false := by
+  apply runDisjPass_noPanic _ (fun _ => true) S (allSchemas_true S)
+  intro cur s hs hc bs info m _
+  have hacs := localAcyclic_mem hac hs
+  have hres := schemaResolve_noPanic cur s hc hacs
+  simp only [DisjunctionInferMapping.hookWith]
+  by_cases h1 : hasOnlyRefs bs = true
+  · simp only [h1, Bool.not_true, Bool.false_eq_true, if_false]
+    by_cases h2 : (info.discriminator != "" && !info.mapping.isEmpty) = true
+    · simp [h2]
+    · simp only [h2, Bool.false_eq_true, if_false]
+      have hq : isPanic (DisjunctionInferMapping.qualifying s (Schemas.fuel cur) bs) = false := by
+        cases bs with
+        | nil => rfl
         | cons b0 rest =>
           simp only [DisjunctionInferMapping.qualifying]
           have := infer_collect_noPanic s (Schemas.fuel cur) hres (b0 :: rest) []
@@ -837,7 +959,7 @@ theorem disjunctionInferMapping_total (pick : List String → String) (S : Schem
           | panic _ => rw [hcq] at this; cases this
           | err _ => rfl
           | ok _ => rfl
-      have hb := fun disc => infer_build_noPanic cur s hc hacs disc bs [] h1 hp'.2
+      have hb := fun disc => infer_build_noPanic s (Schemas.fuel cur) hres disc bs [] h1
       by_cases hd : (info.discriminator == "") = true
       · simp only [hd, if_true]
         cases hqq : DisjunctionInferMapping.qualifying s (Schemas.fuel cur) bs with
@@ -971,13 +1093,13 @@ theorem disjunctionOfConstantsToEnum_total (S : Schemas) (h : allSchemas docteNo
 def passCond : PassId → Schemas → Bool
   | .anonymousStructsToNamed, _ => true
   | .notRequiredFieldAsNullableType, _ => true
-  | .disjunctionWithNullToOptional, S => NoNullOnlyUnion S
+  | .disjunctionWithNullToOptional, _ => true
   | .disjunctionOfConstantsToEnum, S => allSchemas docteNode S
   | .anonymousEnumToExplicitType, _ => true
   | .prefixEnumValues, S => EnumMembersOk S
   | .flattenDisjunctions, S => LocalAliasAcyclic S
   | .disjunctionOfAnonymousStructsToExplicit, _ => true
-  | .disjunctionInferMapping, S => LocalAliasAcyclic S && InferMappingSafe S
+  | .disjunctionInferMapping, S => LocalAliasAcyclic S
   | .undiscriminatedDisjunctionToAny, S => LocalAliasAcyclic S
   | .disjunctionToType, S => LocalAliasAcyclic S
   | .removeIntersections, S => VariantHintsAreStrings S
@@ -989,15 +1111,13 @@ theorem pass_total (p : PassId) (S : Schemas) (h : passCond p S = true) : isPani
   cases p with
   | anonymousStructsToNamed => exact anonymousStructsToNamed_total S
   | notRequiredFieldAsNullableType => exact notRequiredFieldAsNullableType_total S
-  | disjunctionWithNullToOptional => exact disjunctionWithNullToOptional_total S h
+  | disjunctionWithNullToOptional => exact disjunctionWithNullToOptional_total S
   | disjunctionOfConstantsToEnum => exact disjunctionOfConstantsToEnum_total S h
   | anonymousEnumToExplicitType => exact anonymousEnumToExplicitType_total S
   | prefixEnumValues => exact prefixEnumValues_total S h
   | flattenDisjunctions => exact flattenDisjunctions_total S h
   | disjunctionOfAnonymousStructsToExplicit => exact disjunctionOfAnonymousStructsToExplicit_total S
-  | disjunctionInferMapping =>
-    simp only [passCond, Bool.and_eq_true] at h
-    exact disjunctionInferMapping_total _ S h.1 h.2
+  | disjunctionInferMapping => exact disjunctionInferMapping_total _ S h
   | undiscriminatedDisjunctionToAny => exact undiscriminatedDisjunctionToAny_total S h
   | disjunctionToType => exact disjunctionToType_total S h
   | removeIntersections => exact removeIntersections_total S h
